@@ -51,6 +51,8 @@ func TestCheck(t *testing.T) {
 			"too few re-initialisations (upstream deleted and re-created, leadership lost and regained) followed by reports")
 		r.Require(r.Counter("sys_rejected_reports") >= 60 && r.Counter("sys_schema_removed_and_readded") >= 40 && r.Counter("sys_other_upstream_reports") >= 200,
 			"too few rejected reports / schema removals / reports to the second upstream")
+		r.Require(r.Counter("sys_burst_only_changes") >= 100 && r.Counter("sys_burst_only_lowered") >= 40 && r.Counter("sys_token_bucket_answers_after_burst_only_change") >= 300,
+			"too few changes of the global burst alone (qps unchanged) followed by reports")
 		r.Require(r.Counter("sys_report_errors") == 0, "reports were refused by the server (harness/server set-up problem)")
 	})
 }
@@ -1046,8 +1048,10 @@ func (h *history) run() {
 				ws = sub
 			}
 			h.reportConcurrently(ws, h.g.Chance(0.25))
-		case x < 84:
+		case x < 82:
 			h.changeLimit()
+		case x < 84:
+			h.changeBurstOnly()
 		case x < 85:
 			h.reinit()
 		case x < 86:
